@@ -192,6 +192,8 @@ def build_random_model(rng, nl, scale=1.0, spec=None):
             shape=[[rng.uniform(0.2, 3.0) for _ in range(len(WN))] for _ in range(2)],
             rayleigh=rng.random() < 0.4, cia=rng.random() < 0.4, ciamag=rng.choice([-58, -52, -48]),
             table=rng.random() < 0.4, tabmag=rng.choice([None, -30, -26, -22]),
+            # a second instance of the same contribution class (same name), which add_contribution accepts
+            table_dup=rng.random() < 0.5, tabmag2=rng.choice([-28, -25, -23]),
         )
     reset_caches()
     names = ['H2O', 'CH4'][:spec['ngas']]
@@ -230,8 +232,13 @@ def build_random_model(rng, nl, scale=1.0, spec=None):
             sig[:] = 10.0 ** spec['tabmag'] * scale * np.linspace(1.0, 2.0, len(WN))[None, :]
             sig *= np.linspace(2.0, 0.5, nl)[:, None]
         m.add_contribution(TableContribution('Table', sig))
+        if spec.get('table_dup'):
+            sig2 = 10.0 ** spec['tabmag2'] * scale * np.linspace(2.0, 1.0, len(WN))[None, :] * np.linspace(0.5, 1.5, nl)[:, None]
+            m.add_contribution(TableContribution('Table', sig2))
+    added = list(m.contribution_list)       # what was REGISTERED (all of the same evaluation order: build() keeps it)
     m.build()
     m._verif_xs = xs
+    m._verif_added = added
     return m, spec
 
 
@@ -244,7 +251,8 @@ def evaluate_run(m):
     from taurex.contributions import AbsorptionContribution
     Tl = np.asarray(m.temperatureProfile, dtype=float)
     Pl = np.asarray(m.pressureProfile, dtype=float)
-    for c in m.contribution_list:
+    registered = getattr(m, '_verif_added', None) or list(m.contribution_list)
+    for c in registered:
         if isinstance(c, AbsorptionContribution) and hasattr(m, '_verif_xs'):
             # molecular absorption: the inputs are the fixture cross-sections and the mixing ratios,
             # NOT the contribution's own buffer (so a wrong sum over species is seen here too)
@@ -252,6 +260,8 @@ def evaluate_run(m):
             for g, f in m._verif_xs.items():
                 mix = np.asarray(m.chemistry.get_gas_mix_profile(g), dtype=float)
                 sig += np.array([f(Tl[k], Pl[k]) for k in range(len(Pl))]) * mix[:, None]
+        elif hasattr(c, '_sig'):        # fixture table: the given numbers, whether or not the model prepared it
+            sig = np.asarray(c._sig, dtype=float)
         else:
             sig = np.asarray(c.sigma_xsec, dtype=float)
         if isinstance(c, CIAContribution):
@@ -265,7 +275,15 @@ def evaluate_run(m):
     depth = depth_of(r, m.star.radius, T)
     bare = (r[0] / m.star.radius) ** 2
     opaque = depth_of(r, m.star.radius, [[0.0] * len(row) for row in tau])
-    return dict(r=r, L=L, tau=tau, full=full, pre=pre, T=T, depth=depth, bare=bare, opaque=opaque)
+    alone = {}
+    names = [c.name for c in registered]
+    for i, c in enumerate(registered):
+        if names.count(c.name) > 1:
+            continue            # same-name instances share one entry of the per-source dictionary: not judged per source
+        ti, _, _ = tau_layers([A[i]], None, L, 10.0)
+        Ti = [[math.exp(-t) for t in row] for row in ti]
+        alone[c.name] = dict(tau=ti, depth=depth_of(r, m.star.radius, Ti))
+    return dict(r=r, L=L, tau=tau, full=full, pre=pre, T=T, depth=depth, bare=bare, opaque=opaque, alone=alone)
 
 
 def run_e2e(ctx, nruns, max_layers):
@@ -349,7 +367,7 @@ def e2e_one(ctx, m, spec, events, evmeta, rng, paired=True):
         ctx.verdict('bare_when_transparent', bool(np.all(depth == ev['bare']) or close(depth.max(), ev['bare'], rel=1e-14)),
                     cls=cls, detail='depth %r bare %r' % (depth.tolist(), ev['bare']), vector=vec)
     # (4) early-exit protocol events for TLC
-    nc = len(m.contribution_list)
+    nc = len(getattr(m, '_verif_added', None) or m.contribution_list)
     for j in range(nl):
         ms = []
         for i in range(nc + 1):
@@ -370,6 +388,27 @@ def e2e_one(ctx, m, spec, events, evmeta, rng, paired=True):
                 appl.append(i)
         events.append(dict(id=len(events), m=ms, appl=appl))
         evmeta.append(dict(cls=cls, layer=j, spec=spec))
+    # (6) every source evaluated alone on the SAME long-lived model (model_contrib): its depth is the documented integral
+    # with that source only, and the full model evaluated again afterwards is unchanged
+    if len(m.contribution_list) > 1:
+        try:
+            _, per = m.model_contrib()
+            for name, ref in ev['alone'].items():
+                if name not in per:
+                    ctx.verdict('source_depth', False, cls=cls + ':' + name, detail='%s missing from model_contrib()' % name, vector=vec)
+                    continue
+                dc = np.asarray(per[name][0], dtype=float)
+                oks = all(close(dc[w], ref['depth'][w], rel=1e-9) for w in range(nw))
+                ctx.verdict('source_depth', oks, cls=cls + ':' + name,
+                            detail='model_contrib()[%s] depth %r, documented integral with that source alone %r' % (name, dc.tolist(), ref['depth']),
+                            vector=vec)
+            _, depth_again, _, _ = m.model()
+            ctx.verdict('model_depth', all(close(float(depth_again[w]), ev['depth'][w], rel=1e-9) for w in range(nw)), cls=cls + ':after-model_contrib',
+                        detail='model() after model_contrib(): depth %r, documented integral %r' % (np.asarray(depth_again).tolist(), ev['depth']), vector=vec)
+        except Machinery:
+            raise
+        except Exception as e:   # noqa
+            ctx.verdict('source_depth', False, cls=cls + ':raised', detail='%s: %s' % (type(e).__name__, e), vector=vec)
     # (5) monotone under scaling of every cross-section (only sources the harness can scale)
     if paired and not spec['rayleigh'] and not spec['cia'] and rng.random() < 0.6:
         k = rng.choice([1.5, 2.0, 10.0])
